@@ -151,7 +151,7 @@ func (t *PageTree) loadPages() error {
 	t.pages = make([]*Page, 0)
 
 	// Start recursive traversal from root
-	if err := t.traversePageNode(t.root, nil); err != nil {
+	if err := t.traversePageNode(t.root, nil, 0, make(map[int]bool)); err != nil {
 		return fmt.Errorf("failed to traverse page tree: %w", err)
 	}
 
@@ -160,7 +160,13 @@ func (t *PageTree) loadPages() error {
 
 // traversePageNode recursively traverses a page tree node
 // parent is the parent Pages dictionary for inheritable attributes
-func (t *PageTree) traversePageNode(node core.Dict, parent core.Dict) error {
+func (t *PageTree) traversePageNode(node core.Dict, parent core.Dict, depth int, visiting map[int]bool) error {
+	// /Kids references come from the file: a node that (directly or not) lists
+	// one of its ancestors would otherwise be traversed for ever
+	if depth > maxPageTreeDepth {
+		return fmt.Errorf("page tree deeper than %d levels", maxPageTreeDepth)
+	}
+
 	// Get the type to determine if this is a Pages node or Page leaf
 	typeObj := node.Get("Type")
 	if typeObj == nil {
@@ -193,6 +199,14 @@ func (t *PageTree) traversePageNode(node core.Dict, parent core.Dict) error {
 
 		// Traverse each child
 		for i, kidObj := range kids {
+			kidRef, isRef := kidObj.(core.IndirectRef)
+			if isRef {
+				if visiting[kidRef.Number] {
+					return fmt.Errorf("page tree node %d is its own ancestor", kidRef.Number)
+				}
+				visiting[kidRef.Number] = true
+			}
+
 			// Resolve child reference
 			kidResolved, err := t.resolver.Resolve(kidObj)
 			if err != nil {
@@ -205,8 +219,11 @@ func (t *PageTree) traversePageNode(node core.Dict, parent core.Dict) error {
 			}
 
 			// Recursively traverse child (passing current node as parent)
-			if err := t.traversePageNode(kidDict, node); err != nil {
+			if err := t.traversePageNode(kidDict, node, depth+1, visiting); err != nil {
 				return err
+			}
+			if isRef {
+				delete(visiting, kidRef.Number)
 			}
 		}
 
@@ -247,6 +264,9 @@ func (p *Page) Type() string {
 	}
 	return ""
 }
+
+// maxPageTreeDepth bounds the depth of the page tree traversal.
+const maxPageTreeDepth = 64
 
 // maxInheritDepth bounds the walk up the page tree when looking for an
 // inheritable attribute (guards against /Parent cycles in damaged files).
